@@ -13,7 +13,7 @@ import vlib
 import nodetrace
 import tracecheck
 
-C01_EVENTS = {"rebuild", "known_add", "known_del", "ru_apply", "conn_add", "conn_del", "mk_update", "h_status"}
+C01_EVENTS = {"node_new", "rebuild", "known_add", "known_del", "ru_apply", "conn_add", "conn_del", "mk_update", "h_status"}
 
 
 def run(tier, seed, replay=None):
